@@ -209,7 +209,16 @@ class Raised(Exception):
     pass
 
 
-def run_function(f, env, max_steps=10000, skip_calls=False):
+class _Unknown(object):
+    """value of something the evaluator could not compute (tolerant mode); any use of it is Unsupported"""
+    def __repr__(self):
+        return '<unknown>'
+
+
+UNKNOWN = _Unknown()
+
+
+def run_function(f, env, max_steps=10000, skip_calls=False, tolerant=False):
     """Interpret a *decision-table* function: if/elif chains of comparisons that assign or return
     constants / simple arithmetic.  Supports Assign, AugAssign, If, Return, Raise, Pass, Expr(docstring),
     While loops with integer arithmetic (bounded).  Returns the returned value; raises Raised on raise."""
@@ -254,9 +263,27 @@ def run_function(f, env, max_steps=10000, skip_calls=False):
             elif isinstance(s, ast.Raise):
                 raise Raised()
             elif isinstance(s, ast.If):
-                block(s.body if ev(s.test, env) else s.orelse)
+                try:
+                    tv = ev(s.test, env)
+                except TypeError as e:
+                    raise Unsupported('test on an unknown value: %s' % e)
+                if tv is UNKNOWN:
+                    raise Unsupported('test on an unknown value')
+                block(s.body if tv else s.orelse)
             elif isinstance(s, ast.Assign):
-                v = ev(s.value, env)
+                try:
+                    v = ev(s.value, env)
+                except (Unsupported, TypeError, KeyError, AttributeError) as e:
+                    if not tolerant or isinstance(e, Raised):
+                        raise
+                    # tolerant mode: what cannot be computed is unknown; statements that only use known values still evaluate
+                    for t in s.targets:
+                        for x in ast.walk(t):
+                            if isinstance(x, ast.Name) and isinstance(x.ctx, ast.Store):
+                                env[x.id] = UNKNOWN
+                            elif isinstance(x, ast.Attribute) and isinstance(x.ctx, ast.Store):
+                                env[ast.unparse(x)] = UNKNOWN
+                    continue
                 for t in s.targets:
                     bind(t, v)
             elif isinstance(s, ast.AugAssign) and isinstance(s.target, ast.Subscript) and not isinstance(s.target.slice, ast.Slice):
